@@ -34,6 +34,8 @@ type vDetStep struct {
 	StopFail bool `json:"stopFail"`
 	// processor chain only: the recording window (10:00-14:00) is closed when this frame arrives
 	Closed bool `json:"closed"`
+	// the camera has not run a flat-field correction since power-on: LastFFCTime = 0 and TimeOn = ffcAge
+	NeverFFC bool `json:"neverFfc"`
 }
 type vDetScript struct {
 	Cfg   vDetCfg    `json:"cfg"`
@@ -120,6 +122,9 @@ func TestVerifDetector(t *testing.T) {
 					}
 				}
 				f1.Status = cptvframe.Telemetry{TimeOn: timeOn, LastFFCTime: timeOn - time.Duration(st.FfcAge)*time.Millisecond}
+				if st.NeverFFC {
+					f1.Status = cptvframe.Telemetry{TimeOn: time.Duration(st.FfcAge) * time.Millisecond}
+				}
 				f2.Status = f1.Status
 				m1 := d1.Detect(f1)
 				ev := map[string]interface{}{"ev": "dframe", "kind": sc.Kind, "pix": st.Pix, "aff": st.FfcAge < 10000, "motion": m1,
